@@ -15,6 +15,14 @@ package net
 // Oracle after every action: InboundsCount() <= MaxConnInBound, OutboundsCount() <= MaxConnOutBound,
 // and the harness's own count of established (successful, not yet closed) connections: inbound <=
 // MaxConnInBound, inbound per remote IP <= MaxConnInBoundPerIP, outbound <= MaxConnOutBound.
+//
+// Held results: what AcceptConnect / Connect return for one connection (the *peer.PeerInfo the node
+// builds its Peer from and keeps for the connection's lifetime, and the wrapped net.Conn whose Close
+// frees exactly this connection's slot) is a function of that handshake alone. It is judged at return
+// time (the remote's soft version, port and address; its kad id or the pseudo id of its nonce) and then
+// held untouched next to a copy while the later steps of the schedule (other handshakes, also of the same
+// peer id from the same IP, closes, aborts) run; after every step every held result must equal its copy.
+// The counters themselves are plain uints (returned by value): there is nothing to hold in them.
 
 import (
 	"fmt"
@@ -78,6 +86,7 @@ func (g *gatedConn) Write(p []byte) (int, error) {
 }
 
 type connRes struct {
+	info *peer.PeerInfo
 	conn net.Conn
 	err  error
 }
@@ -104,6 +113,9 @@ type attempt struct {
 	ctlDone  chan connRes  // AcceptConnect / Connect result
 	peerDone chan error    // remote handshake result
 	wrapped  net.Conn
+	info     *peer.PeerInfo // exactly what AcceptConnect / Connect returned; never touched by the harness
+	infoSnap peer.PeerInfo  // copy taken at return time
+	heldOver int            // number of later successful AcceptConnect / Connect while the result was held
 }
 
 const selfAddr = fakeAddr("10.9.9.9:20338")
@@ -195,8 +207,56 @@ func (w *world) inflight(inbound bool) (n int) {
 	return
 }
 
+// hold judges what AcceptConnect / Connect returned for attempt a at return time and keeps it next
+// to a copy. The id is the remote's kad id when both sides speak the DHT handshake, else the pseudo id
+// derived from the nonce of its version message.
+func (w *world) hold(a *attempt, r connRes, what string) {
+	tr := func() string { return strings.Join(w.trace, " ") }
+	if r.info == nil || r.conn == nil {
+		w.fail("%s succeeded for connection %d but returned info=%v conn=%v\n schedule: %s", what, a.id, r.info, r.conn, tr())
+		return
+	}
+	id := powKeyIds[a.key].Id
+	if i := *r.info; (i.Id != id && i.Id != pcom.PseudoPeerIdFromUint64(id.ToUint64())) || i.SoftVersion != a.soft || i.Port != 20338 || i.Addr != a.addr {
+		w.fail("%s returned %+v for connection %d, the remote is peer k%d (id %s, soft version %q, port 20338) at %s\n schedule: %s",
+			what, i, a.id, a.key, id.ToHexString(), a.soft, a.addr, tr())
+	}
+	if got := r.conn.RemoteAddr().String(); got != a.addr {
+		w.fail("%s returned a connection to %s for connection %d to %s\n schedule: %s", what, got, a.id, a.addr, tr())
+	}
+	for _, b := range w.all {
+		if b.info != nil {
+			b.heldOver++
+			if b.info == r.info || b.wrapped == r.conn {
+				w.fail("%s returned for connection %d the very object it returned for connection %d\n schedule: %s", what, a.id, b.id, tr())
+			}
+		}
+	}
+	a.info, a.infoSnap = r.info, *r.info
+	if w.ev != nil {
+		w.ev.Class("held:results")
+	}
+}
+
+// checkHeld: every result returned so far still equals the copy taken when it was returned.
+func (w *world) checkHeld() {
+	for _, a := range w.all {
+		if a.info == nil {
+			continue
+		}
+		if *a.info != a.infoSnap {
+			w.fail("the peer info returned for connection %d changed while the schedule went on (%d later connections were established): was %+v, now %+v (a result must not alias state that later connections reuse)\n schedule: %s",
+				a.id, a.heldOver, a.infoSnap, *a.info, strings.Join(w.trace, " "))
+		}
+		if got := a.wrapped.RemoteAddr().String(); got != a.addr {
+			w.fail("the connection returned for connection %d to %s now reports %s\n schedule: %s", a.id, a.addr, got, strings.Join(w.trace, " "))
+		}
+	}
+}
+
 // check is the oracle, evaluated after every action.
 func (w *world) check() {
+	w.checkHeld()
 	in, perIP, out := w.established()
 	ci, co := w.ctl.InboundsCount(), w.ctl.OutboundsCount()
 	tr := strings.Join(w.trace, " ")
@@ -228,8 +288,8 @@ func (w *world) startAccept(a *attempt) {
 	a.gated = &gatedConn{pipeConn: pipeConn{Conn: c2, local: fakeAddr(a.addr), remote: selfAddr}, gate: make(chan struct{}), wrote: make(chan struct{})}
 	a.ctlDone, a.peerDone = make(chan connRes, 1), make(chan error, 1)
 	go func() {
-		_, conn, err := w.ctl.AcceptConnect(srv)
-		a.ctlDone <- connRes{conn, err}
+		info, conn, err := w.ctl.AcceptConnect(srv)
+		a.ctlDone <- connRes{info, conn, err}
 	}()
 	go func() {
 		_, err := handshake.HandshakeClient(peerInfoOf(a.key, a.soft), powKeyIds[a.key], a.gated)
@@ -278,6 +338,7 @@ func (w *world) finishAccept(a *attempt) {
 	perr := w.recvErr(a.peerDone, "HandshakeClient")
 	if r.err == nil {
 		a.state, a.wrapped = stEstablished, r.conn
+		w.hold(a, r, "AcceptConnect")
 		if perr != nil {
 			w.fail("accepted connection %d but the remote's handshake failed: %v", a.id, perr)
 		}
@@ -339,8 +400,8 @@ func (w *world) startDial(a *attempt) {
 	w.dialer.cur = a
 	w.dialer.mu.Unlock()
 	go func() {
-		_, conn, err := w.ctl.Connect(a.addr)
-		a.ctlDone <- connRes{conn, err}
+		info, conn, err := w.ctl.Connect(a.addr)
+		a.ctlDone <- connRes{info, conn, err}
 	}()
 	select {
 	case <-a.dialed: // passed the pre-check, dialled, now blocks writing its version message
@@ -384,6 +445,7 @@ func (w *world) finishDial(a *attempt) {
 	perr := w.recvErr(a.peerDone, "HandshakeServer")
 	if r.err == nil {
 		a.state, a.wrapped = stEstablished, r.conn
+		w.hold(a, r, "Connect")
 		if perr != nil {
 			w.fail("outbound connection %d established but the remote's handshake failed: %v", a.id, perr)
 		}
@@ -496,7 +558,7 @@ func c36Replay() {
 	})
 }
 
-const c36Rule = "limits in 1-3 / per-IP 1-2 / out 1-3; up to 8 inbound pipe pairs from 3 remote IPs and up to 5 outbound dials, 6-40 schedule steps drawn state-aware from {startAccept, finishAccept, abortAccept, close, startDial, finishDial, abortDial}; every step runs to a deterministic blocking point; non-trivial = at least two handshakes of one direction are in flight when one of them completes; distinct = different limits or schedule"
+const c36Rule = "limits in 1-3 / per-IP 1-2 / out 1-3; up to 8 inbound pipe pairs from 3 remote IPs and up to 5 outbound dials, 6-40 schedule steps drawn state-aware from {startAccept, finishAccept, abortAccept, close, startDial, finishDial, abortDial}; every step runs to a deterministic blocking point; non-trivial = at least two handshakes of one direction are in flight when one of them completes; distinct = different limits or schedule || held results: the *peer.PeerInfo and net.Conn returned by every successful AcceptConnect / Connect are judged at return time against the remote's identity (kad id or nonce pseudo id, soft version, port, address), then held untouched next to a copy for the rest of the schedule (measured: a result held over >= 2 later completed handshakes; the same peer id established twice from one IP) and compared with the copy after every step; two successes never return the same object"
 
 func c36ev() *harn.Collector {
 	return harn.For("C36").Rule(c36Rule).
@@ -638,6 +700,26 @@ func runSchedule(t *rapid.T, ev *harn.Collector, onlyIn, onlyOut bool) {
 	if nt {
 		ev.Class("schedule:concurrent-handshakes")
 	}
+	w.checkHeld()
+	heldMax, samePeer := 0, false
+	seen := map[int]bool{}
+	for _, a := range w.all {
+		if a.info != nil {
+			if a.heldOver > heldMax {
+				heldMax = a.heldOver
+			}
+			if seen[a.key] {
+				samePeer = true
+			}
+			seen[a.key] = true
+		}
+	}
+	if heldMax >= 2 {
+		ev.Class("held:over>=2")
+	}
+	if samePeer {
+		ev.Class("held:same-peer-twice")
+	}
 	ev.Class("schedule")
 	ev.Case(nt, fmt.Sprintf("in=%d ip=%d out=%d | %s", maxIn, maxIP, maxO, strings.Join(w.trace, " ")))
 }
@@ -648,6 +730,8 @@ func TestC36_Schedules(t *testing.T) {
 	ev.Floor("schedule:concurrent-handshakes", "schedule", 0.3)
 	ev.Floor("accept:established", "accept:handshaking", 0.1)
 	ev.Floor("dial:established", "dial:handshaking", 0.1)
+	ev.Floor("held:over>=2", "schedule", 0.3)
+	ev.Floor("held:same-peer-twice", "schedule", 0.04)
 	harn.Check(t, 2500, 60000, func(t *rapid.T) { runSchedule(t, ev, false, false) })
 }
 
